@@ -9,6 +9,8 @@ pub mod field;
 pub mod consts;
 pub mod eddsa;
 pub mod edwards;
+#[cfg(curve25519_dalek_verif)]
+pub mod formulas;
 pub mod group_ops;
 pub mod helpers;
 pub mod montgomery;
@@ -90,6 +92,9 @@ fn dispatch(req: &Req) -> Out {
         }
         if op.starts_with("v2.") || op.starts_with("vi.") {
             return vector::exec(op, a);
+        }
+        if op.starts_with("fz.") {
+            return formulas::exec(op, a);
         }
         if op.starts_with("k.") {
             return consts::exec(op, a);
